@@ -19,6 +19,7 @@ POOL = [
     "a halt\n.blkw x200\nbr a\n", "a .break\nhalt\n", ".break\na halt\n", "a halt ; comment\n", "é\n", "a é\n",
     "a add r0 r0 #99\n", "BUF .fill #1\nBuf .fill #2\nld r0 buf\nhalt\n", "Lbl halt\nbr lbl\n", "br LBL\nlbl halt\n",
     "push r0\nhalt\n", "add r0 r0 #1\npop r1\n", "rets\n", "a call a\n", "halt\nPUSH r1\n", "getc\nout\nhalt\n", "puts\n",
+    "buf .blkw #-32768\nhalt\n", "buf .blkw #-30000\nld r0 buf\n", "x_ .blkw #-1\n", "halt\n.blkw #-32000\n",
     "l1 halt\nl2 halt\nl3 halt\nl4 halt\nl5 halt\nl6 halt\nL1 halt\nbr l1\nbr L1\n", "aa halt\nbb halt\ncc halt\ndd halt\nee halt\nee halt\n", "a halt\nb add r0 r0\n", "", "\n\n", "a trap x25\nb trap x26\n", "b halt\nbr a\n",
 ]
 
@@ -74,7 +75,8 @@ def correspondence(ctx, violations, known_hits):
     r = asmcommon.run_asm_cases(ctx, cases, tags, violations, profiles, aux=AUX,
                                 prop_note="model: after a reset the result equals a fresh assembly (C19_pure); a mismatch in a later source of a sequence is state leaking across assemblies")
     # direct check on the implementation's own answers: B after (A, reset) == B alone
-    ri, rm, _ = ctx.run_both(cases, profile="debug", tag="c19d")
+    # (the implementation alone, with what each assembly PRINTED — warnings — included in its answer: kind ASMW)
+    ri, _ = ctx.run_impl(["ASMW" + c[3:] for c in cases], profile="debug", tag="c19d")
     alone = {}
     for c, t, a in zip(cases, tags, ri):
         if t == "alone" and a:
